@@ -116,6 +116,7 @@ def replay(rec, workdir):
     rc, out = common.run(exe, [seed, runs, '0'], timeout=900)
     text = 'native replay (independent reference written from docs/api/formatters.md, seed %s, %s random patterns; bounded, proves nothing):\n%s' % (seed, runs, out[-2500:])
     rc2, out2 = common.run(exe, [seed, '60', '1'], timeout=600)
+    if zwsp_listed(): out2 = out2.replace('FAILING INPUT', 'INPUT OF THE RECORDED CLASS (known finding)')
     text += '\nvalues containing U+200B (input class of the recorded finding C12-zwsp-*%s):\n%s' % (', listed: not counted as a new failing input' if zwsp_listed() else '', out2[-1200:])
     return (rc == 1) or (rc2 == 1 and not zwsp_listed()), text
 if __name__ == '__main__':
